@@ -193,6 +193,21 @@ def _check_fns(fns, what):
             raise Violation("spec.point", f"{what}: user function {f.bad[0]} ({len(f.bad)} such calls)", kind="value")
 
 
+def _scribble(st, val, spec, obj, want, what):
+    """The caller reuses the array it passed (e.g. one work buffer refilled for several
+    fields): a field set through the constructor or update_field_values keeps the values
+    it was given. (Not applied to the bare `array` setter, for which the unchanged
+    library stores what it is handed and no property says otherwise.)"""
+    if spec["t"] != "array" or not isinstance(val, np.ndarray) or val.size == 0:
+        return
+    val[...] = val + 1000
+    st.stats.probe("caller_reuses_array")
+    st.stats.oracle("A")
+    got = np.asarray(obj.array)
+    if got.shape == want.shape and not arrays_equal(got.astype(want.dtype), want):
+        raise Violation("alias.caller_array", f"{what}: the field changed when the caller overwrote the array it had passed as value (shape {val.shape}, dtype {val.dtype})", preds=[what, "shape-n" if val.ndim == got.ndim - 1 else "full"], kind="A")
+
+
 @op("F.construct")
 def op_construct(st, o):
     mh = st.h[o["on"]]
@@ -224,6 +239,8 @@ def op_construct(st, o):
     res = sut(st.df.Field, mh.obj, **kw)
     obj = expect_ok(res, f"Field(mesh, nvdim={nvdim}, value=<{spec['t']}>, dtype={dtype})")
     _check_fns(fns, "Field(...)")
+    if o.get("norm") is None:
+        _scribble(st, kw["value"], spec, obj, want, "Field(...)")
     st.stats.oracle("value")
     vdims = o.get("vdims") or default_vdims(nvdim)
     pred = {"array": want, "valid": valid, "vdims": vdims, "mapping": default_mapping(nvdim, vdims, mm.region.dims), "unit": o.get("unit"), "nvdim": nvdim}
@@ -261,6 +278,8 @@ def op_update(st, o):
         res = sut(h.obj.update_field_values, val)
     expect_ok(res, f"update of field values with <{spec['t']}> via {o.get('via', 'update_field_values')}")
     _check_fns(fns, "update_field_values")
+    if o.get("via") != "array":
+        _scribble(st, val, spec, h.obj, want, "update_field_values")
     if "array" in st.predict:
         h.fm.array = want
         h.fm.vtol = 0.0
@@ -287,7 +306,11 @@ def op_faulty(st, o):
     spec = o["spec"]
     if not construct and dtype not in (None, "float") and spec["t"] in ("fn", "dict"):
         return "skipped"
-    if spec["t"] == "field":
+    if spec["t"] == "field" and spec.get("wrong_nvdim"):
+        src = st.h.get(spec["src"])
+        if src is None or src.kind != "F" or src.fm.nvdim == nvdim or src.box.v.region.dims != mm.region.dims:
+            return "skipped"
+    elif spec["t"] == "field":
         src = st.h.get(spec["src"])
         if src is None or src.kind != "F" or src.fm.nvdim != nvdim or src.box.v.region.contains_region(mm.region, margin=max(mm.cell)) or src.box.v.region.dims != mm.region.dims:
             return "skipped"
@@ -429,6 +452,36 @@ def op_getnorm(st, o):
             st.stats.oracle("value", 3)
     st.stats.oracle("value")
     return which
+
+
+@op("F.poke")
+def op_fpoke(st, o):
+    """The caller edits values in place through the array the field hands out; every
+    later read (norm, orientation, sampling, a new norm) must see the current values."""
+    h = st.h[o["on"]]
+    if h.kind != "F":
+        return "skipped"
+    a = h.obj.array
+    if not isinstance(a, np.ndarray) or a.size == 0 or not a.flags.writeable or a.dtype.kind != "f":
+        return "skipped"
+    ncell = math.prod(a.shape[:-1])
+    idx = np.unravel_index(o["i"] % ncell, a.shape[:-1])
+    v = np.asarray(o["v"], dtype=float)[: a.shape[-1]]
+    if len(v) != a.shape[-1]:
+        return "skipped"
+    if o.get("whole_cell", True):
+        a[idx] = v
+    else:
+        a[idx][0] = v[0]
+    h.fm.array = h.fm.array.astype(a.dtype).copy()
+    if o.get("whole_cell", True):
+        h.fm.array[idx] = v
+    else:
+        h.fm.array[idx][0] = v[0]
+    h.fm.vtol = 0.0
+    st.stats.probe("buffer_write")
+    st.stats.oracle("H")
+    return "poked"
 
 
 # --------------------------------------------------------------------------------------
@@ -954,9 +1007,9 @@ def op_vset(st, o):
     elif how["t"] == "norm":
         a = h.fm.array.astype(complex)
         L = np.sqrt((np.abs(a) ** 2).sum(axis=-1))
-        if np.any((L > 1e-10) & (L < 1e-6)) or not np.all(np.isfinite(L)):
-            return "skipped"  # ambiguous band around the library's 1e-8 threshold, or NaN/inf cells (S2)
-        val, want = "norm", L >= 1e-6
+        if np.any((L > 0.95e-8) & (L < 1.05e-8)) or not np.all(np.isfinite(L)):
+            return "skipped"  # decision margin around the library's 1e-8 threshold, or NaN/inf cells (S2)
+        val, want = "norm", L >= 1.05e-8
     else:
         raise HarnessError(how)
     res = sut(setattr, h.obj, "valid", val)
